@@ -136,15 +136,14 @@ func (e *Exec) callBuiltin(st *State, name string, args []Value, byDefer bool, s
 	case "recover":
 		// valid when called directly by a deferred function while its caller frame is panicking
 		fr := st.Top()
-		if st.Panicking != nil && fr.ByDefer {
-			v := st.Panicking.Val
+		if fr.ByDefer && len(st.Frames) >= 2 && st.Frames[len(st.Frames)-2].Pending != nil {
+			caller := st.Frames[len(st.Frames)-2]
+			v := caller.Pending.Val
 			if iv, ok := v.(Iface); ok && iv.T == nil {
 				v = e.panicNilError(st)
 			}
-			st.Panicking = nil
-			if len(st.Frames) >= 2 {
-				st.Frames[len(st.Frames)-2].Recovered = true
-			}
+			caller.Pending = nil
+			caller.Recovered = true
 			return ret(st, v)
 		}
 		return ret(st, Iface{})
